@@ -302,9 +302,15 @@ def _rv_ops(rv):
     return []
 
 
+def r7(ctx, facts):
+    """shared with C07 (stated there): the plan of one page never names the previous coordinator twice - otherwise the original and a speculative execution of that page run on the same node"""
+    from .c07 import r8 as c07_r8
+    c07_r8(ctx, facts)
+
+
 def check(ctx):
     facts = inline_view(ctx.facts("default"))
-    for fn in (r1, r2_r4, r5, r6):
+    for fn in (r1, r2_r4, r5, r6, r7):
         try:
             fn(ctx, facts)
         except AnchorLost as ex:
